@@ -875,6 +875,7 @@ pub fn execute(cfg: &CCfg, prefix: &[u16], suppress_stray: Option<u32>) -> Exec 
             }
         }
         // completion phase
+        w.log.push(Rec::N("main_end", vec![]));
         w.free.set(true);
         w.settle();
         w.q_record("Q1");
